@@ -111,10 +111,10 @@ impl Prop for C01Prop {
         let mut rng = Rng::new(seed, "config");
         let specs = Specs::from_index(idx as usize % 96);
         let mut case = Case::new("C01", seed, specs);
-        let o = gen::HistOpts { specs, max_ops: 40, regime: gen::regime_any(&mut rng, true), derived: false, restart: true, names_min: 3, names_max: 8, dup_bias: 30 };
+        let o = gen::HistOpts { specs, max_ops: 40, regime: gen::regime_any2(&mut rng, true, true), derived: false, restart: true, names_min: 3, names_max: 8, dup_bias: 30, big: rng.chance(1, 250) };
         let mut wr = Rng::new(seed, "workload");
         case.ops = gen::gen_history(&mut wr, &o);
-        case.envs = gen::keyings(seed, 2).into_iter().map(|k| Env { keying: k, pool: 1, sched: 0 }).collect();
+        case.envs = gen::envs(seed, 2);
         case
     }
     fn run_env(&self, case: &Case, _env: &Env, cx: &mut Ctx) {
